@@ -21,6 +21,10 @@ import RoModel.Drivers.More
 import RoModel.Drivers.Fault
 import RoModel.Drivers.Prom
 import RoModel.Drivers.Cut
+import RoModel.Drivers.MultiB
+import RoModel.Drivers.MultiBC
+import RoModel.Drivers.Share
+import RoModel.Drivers.Race
 import RoModel.Drivers.Kernel
 namespace Ro.Driver
 
@@ -51,7 +55,15 @@ def handlers : List (String × (Case → String)) := [
   ("prom", Drivers.Prom.run),
   ("cutin", Drivers.Cut.runCutIn),
   ("collect", Drivers.Cut.runCollect),
-  ("teardown", Drivers.Cut.runTeardown)
+  ("teardown", Drivers.Cut.runTeardown),
+  ("multib", Drivers.MultiB.run),
+  ("multibc", Drivers.MultiBC.run),
+  ("share", Drivers.Share.run),
+  ("conn", Drivers.Share.runConn),
+  ("sharec", Drivers.Share.runConc),
+  ("connc", Drivers.Share.runConc),
+  ("sharex", Drivers.Share.runScenario),
+  ("race", Drivers.Race.run)
 ]
 
 def runCase (c : Case) : String :=
